@@ -18,6 +18,7 @@ type fsNode struct {
 	name    string
 	isDir   bool
 	data    []Value // file content (byte terms)
+	vsize   int     // logical size when larger than len(data): the rest reads as zeros (sparse file)
 	mtime   Value   // time.Time value
 	mode    uint32
 	dirty   bool // written since last fsync (ghost)
